@@ -115,7 +115,37 @@ struct UserID { v: String }
 #[ts(export_to = "ids.ts")]
 struct Userid { v: bool }
 #[derive(TS)]
-struct UsesIds { a: UserId, b: UserID, c: Userid }
+#[ts(export_to = "ids.ts")]
+struct User { v: u8 }
+#[derive(TS)]
+struct UsesIds { a: UserId, b: UserID, c: Userid, d: User }
+// two different Rust types with the same TypeScript name, in different files
+mod shapes {
+    use ts_rs::TS;
+    #[derive(TS)]
+    #[ts(export_to = "shapes/")]
+    pub struct Point { pub x: u8 }
+}
+mod geo {
+    use ts_rs::TS;
+    #[derive(TS)]
+    #[ts(export_to = "geo/")]
+    pub struct Srid { pub code: u32 }
+    #[derive(TS)]
+    #[ts(export_to = "geo/")]
+    pub struct Point { pub srid: Srid }
+}
+#[derive(TS)]
+struct UsesPoints { a: shapes::Point, b: geo::Point }
+// a generic `Name<T>` and a `Name2` in one file (`2` sorts below `<`)
+#[derive(TS)]
+#[ts(export_to = "pts.ts")]
+struct Pt<T> { t: T }
+#[derive(TS)]
+#[ts(export_to = "pts.ts")]
+struct Pt2 { x: u8 }
+#[derive(TS)]
+struct UsesPts { a: Pt<u8>, b: Pt2 }
 #[derive(TS)]
 struct CarAliased { wheels: Wheels, seats: Seats, engine: MaybeEngine }
 
@@ -186,6 +216,8 @@ fn universe() -> Vec<Entry> {
         entry::<DepW>("DepW"), entry::<DepX>("DepX"), entry::<PA>("PA"), entry::<PB>("PB"),
         entry::<ShDots>("ShDots"), entry::<UsesDots>("UsesDots"),
         entry::<UserId>("UserId"), entry::<UserID>("UserID"), entry::<Userid>("Userid"), entry::<UsesIds>("UsesIds"),
+        entry::<User>("User"), entry::<shapes::Point>("shapes::Point"), entry::<geo::Point>("geo::Point"), entry::<geo::Srid>("Srid"),
+        entry::<UsesPoints>("UsesPoints"), entry::<Pt<u8>>("Pt<u8>"), entry::<Pt2>("Pt2"), entry::<UsesPts>("UsesPts"),
     ]
 }
 
